@@ -49,7 +49,7 @@ META = {
         "note": _ENGINE_NOTE + " File-system model instead of package os.",
     },
     "C16": {
-        "text": "Symbolic crash-point model checking of the real saveFailFile: the crash index is a case-split variable over every file-system step and every write is additionally interrupted with 4 prefix splits; in each resulting file system every file matching any test's discovery pattern equals the uninterrupted save and partial data is visible only under hidden temporary names in the same directory.",
+        "text": "Symbolic crash-point model checking of the real saveFailFile: the crash index is a case-split variable over every file-system step and every write is additionally interrupted with 4 prefix splits; in each resulting file system every file matching any test's discovery pattern equals the uninterrupted save and partial data is visible only under hidden temporary names in the same directory; and a later, uninterrupted save into the directory the killed save left behind produces exactly what it produces in a clean one.",
         "note": _ENGINE_NOTE + " File-system model instead of package os; a kill runs no deferred calls.",
     },
     "C17": {
@@ -69,15 +69,15 @@ META = {
         "note": _ENGINE_NOTE,
     },
     "C13": {
-        "text": "Bounded symbolic model checking of the real checkFuzz on symbolic byte strings of every length up to 17/25 with a symbolic property program: the draws equal those of a replay of the little-endian reference decoding, the outcome map {pass, SkipNow, Fatalf} matches what the property signalled, no run-time panic escapes, and appending unconsumed bytes changes neither outcome nor draws (2-run self-composition).",
+        "text": "Bounded symbolic model checking of the real checkFuzz on symbolic byte strings of every length up to 17/25 with a symbolic property program (incl. rune draws through the loaded die): draws equal those of the little-endian reference decoding, the outcome map {pass, SkipNow, Fatalf} matches what the property signalled, no run-time panic or internal assertion escapes, the input and the caller's memory behind it are not modified, and appending unconsumed bytes changes neither outcome nor draws (2-run self-composition).",
         "note": _ENGINE_NOTE,
     },
     "C10": {
-        "text": "Bounded symbolic model checking of checkOnce/T.cleanup/T.Context/customGen.maybeValue: for every symbolic program (any way of ending, nested cleanup registration, Custom callbacks) the context is live in the body and cancelled before cleanups, every cleanup runs exactly once, and nothing is left on the T.",
+        "text": "Bounded symbolic model checking of checkOnce/T.cleanup/T.Context/customGen.maybeValue: for every symbolic program (any way of ending, nested cleanup registration, Custom callbacks) the context is live in the body and cancelled before cleanups, every cleanup runs exactly once in LIFO order, nothing is left on the T; every call of a Custom generator function - retries after a skip included - is an invocation of its own (its predecessor's cleanups have run, its context is cancelled and not reused).",
         "note": _ENGINE_NOTE,
     },
     "C11": {
-        "text": "One inductive step on checkOnce from an arbitrary fresh T: for every symbolic program the T is clean again whenever it will be reused, and an invocation without failure signal is never classified as failing; so no history of test cases can leak state into a later one.",
+        "text": "One inductive step on checkOnce from an arbitrary fresh T: for every symbolic program the T is clean again whenever it will be reused, and an invocation without failure signal is never classified as failing; plus a two-case composition: after an arbitrary first test case a benign second one (draws, Custom generator, context, cleanups) passes - on the reused T or a fresh one - so state outside the T (pools, package variables) cannot leak either.",
         "note": _ENGINE_NOTE,
     },
     "C03": {
